@@ -200,7 +200,16 @@ fn measure_steady(sc: &OpSc, m: i64, big: usize, iset: &mut InstructionSet) -> R
 /// `big` > 0: the top NAME, the top vectors and the top CODE / EXEC items hold about `big`
 /// characters / elements / a tenth as many points (state-size scaling instead of operand scaling).
 fn measure_sized(sc: &OpSc, m: i64, big: usize, iset: &mut InstructionSet) -> Result<Cost, (PanicInfo, u64)> {
-    let cfg = ConfigSpec::default_cfg();
+    let mut cfg = ConfigSpec::default_cfg();
+    if sc.seed % 3 == 0 {
+        // the ranges of random numbers are values too, not size limits: in a third of the layouts
+        // the configuration carries the magnitude (the limits proper stay at their defaults)
+        let (hi, lo) = if m == NONFINITE { (i32::MAX, i32::MIN) } else { (m as i32, (m as i32).wrapping_neg()) };
+        cfg.max_random_integer = hi;
+        cfg.min_random_integer = lo;
+        cfg.max_random_float = (if m == NONFINITE { f32::MAX } else { m as f32 }).to_bits();
+        cfg.min_random_float = (if m == NONFINITE { f32::MIN } else { -(m as f32) }).to_bits();
+    }
     let mut env = EnvScript::quiet(sc.env_seed);
     env.draw_budget = u64::MAX;
     // begin first: the state's graphs take their node ids from the simulated counter
@@ -501,6 +510,40 @@ pub fn execute_op(sc: &OpSc, iset: &mut InstructionSet) -> OpResult {
                 stats.outcome = "excess".into();
                 break;
             }
+        }
+    }
+    if stats.outcome.is_empty() {
+        // (c) retention: memory still allocated after the state is gone must not grow with the
+        // history of operands (a memo table that is never emptied, a log that is never cut).
+        // Rounds of steps with operands no earlier round used; every state is dropped; the live
+        // byte count of the process is read between rounds. One-time initialisation shows up in
+        // the warm-up round only, a bounded cache stops growing; an unbounded one grows every round.
+        const ROUNDS: usize = 8;
+        const PER: i64 = 48;
+        let mut kept: Vec<u64> = Vec::with_capacity(ROUNDS);
+        for round in 0..=ROUNDS {
+            let before = alloc::live();
+            for j in 0..PER {
+                let m = 3 + j + PER * round as i64;
+                let _ = measure_sized(sc, m, 0, iset);
+            }
+            let after = alloc::live();
+            if round > 0 {
+                kept.push(after.saturating_sub(before));
+            }
+        }
+        let total: u64 = kept.iter().sum();
+        stats.steps += (ROUNDS as u64 + 1) * PER as u64;
+        *stats.probes.entry("retention_rounds".into()).or_insert(0) += ROUNDS as u64;
+        if total >= 8192 && kept.iter().all(|k| *k >= 256) {
+            vs.push(Violation {
+                property: "C15".into(),
+                class: "oracle:retention".into(),
+                site: format!("{}: memory kept after the state is dropped grows with the history of operands", sc.instr),
+                detail: format!("{} rounds of {} steps of {} with operands no earlier round used, every state dropped afterwards: bytes still allocated after each round grew by {:?}", ROUNDS, PER, sc.instr, kept),
+                at_event: 0,
+            });
+            stats.outcome = "excess".into();
         }
     }
     if stats.outcome.is_empty() {
